@@ -158,7 +158,7 @@ impl Shape {
 
 const SNAMES: &[&str] = &["root", "S", "item", "a", "p:a", "T", "x", "b"];
 const FIELD_POOL: &[&str] = &[
-    "a", "b", "c", "item", "x", "p:a", "n", "ab", "@id", "@k", "@a", "@p:k", "@xml:lang", "@n", "$text", "$value", "@xmlns", "xsi:nil",
+    "a", "b", "c", "item", "x", "p:a", "n", "ab", "@id", "@k", "@a", "@p:k", "@xml:lang", "@n", "$text", "$value", "@xmlns", "xsi:nil", "@xml", "@x",
 ];
 const VARIANT_POOL: &[&str] = &["a", "b", "c", "item", "x", "p:a", "$text", "A", "ab"];
 const N_FSETS: usize = 128;
@@ -1115,7 +1115,7 @@ impl<'r> DocGen<'r> {
             }
         }
         if self.rng.chance(1, 8) {
-            attrs.push(((*self.rng.pick(&["zz", "xmlns:p", "xsi:nil", "xmlns"])).to_string(), (*self.rng.pick(&["u", "true", "false", ""])).to_string()));
+            attrs.push(((*self.rng.pick(&["zz", "xmlns:p", "xsi:nil", "xmlns", "xml", "xml:space", "x", "xm", "xmlnsx"])).to_string(), (*self.rng.pick(&["u", "true", "false", ""])).to_string()));
         }
         self.open(tag, &attrs);
         let mut order: Vec<usize> = (0..names.len().min(fields.len())).filter(|i| !names[*i].starts_with('@')).collect();
